@@ -63,17 +63,18 @@ Theorem c02_b_spec w q items tr : c02_b w q items tr = true <-> C02_trace w q 2 
 Proof. apply c02_go_spec. Qed.
 
 (** * C05 *)
-Inductive C05_trace (w : world) (q : query) : N -> option bobs -> list item -> list bobs -> Prop :=
-| c5t_nil h p : C05_trace w q h p [] []
-| c5t_restart h p r tr : C05_trace w q h p r tr -> C05_trace w q h p (IRestart :: r) tr
+Inductive C05_trace (w : world) (q : query) (all : list item) : N -> option bobs -> list item -> list bobs -> Prop :=
+| c5t_nil h p : C05_trace w q all h p [] []
+| c5t_restart h p r tr : C05_trace w q all h p r tr -> C05_trace w q all h p (IRestart :: r) tr
 | c5t_block h p ops r ob tr :
-    (* for every queried group: SUCCESS only with all declared children SUCCESS; failure family =>
-       every child in it; never SUCCESS after a failure; not BEGIN from the block of its timeout height on;
-       in the failing block the notifications are complete *)
-    (forall g, In g (q_gids q) -> c5_check w q (h + 1) ops p ob g = true) ->
-    C05_trace w q (h + 1) (Some ob) r tr -> C05_trace w q h p (IBlock ops :: r) (ob :: tr).
+    (* for every queried group: its record holds only requests of the history [all] that carry this group;
+       SUCCESS only with all declared children SUCCESS; failure family => every child in it; never SUCCESS after
+       a failure; not BEGIN from the block of its timeout height on; in the failing block the notifications are
+       complete *)
+    (forall g, In g (q_gids q) -> c5_check w q all (h + 1) ops p ob g = true) ->
+    C05_trace w q all (h + 1) (Some ob) r tr -> C05_trace w q all h p (IBlock ops :: r) (ob :: tr).
 
-Lemma c05_go_spec w q : forall items h p tr, c05_go w q h p items tr = true <-> C05_trace w q h p items tr.
+Lemma c05_go_spec w q all : forall items h p tr, c05_go w q all h p items tr = true <-> C05_trace w q all h p items tr.
 Proof.
   induction items as [|it r IH]; intros h p tr.
   - simpl. destruct tr; split; intro H; try discriminate; try constructor; inversion H.
@@ -84,7 +85,7 @@ Proof.
       * intro H. inversion H; subst. auto.
     + rewrite IH. split; [intro H; constructor; exact H | intro H; inversion H; assumption].
 Qed.
-Theorem c05_b_spec w q items tr : c05_b w q items tr = true <-> C05_trace w q 2 None items tr.
+Theorem c05_b_spec w q items tr : c05_b w q items tr = true <-> C05_trace w q items 2 None items tr.
 Proof. apply c05_go_spec. Qed.
 
 (** * C06 *)
